@@ -340,6 +340,12 @@ def mon_c15(v):
     return out
 
 
+def mon_c13(v):
+    """the Session Present flag the session bookkeeping reads (and from which `session_expired` is derived) is the one of the accepted CONNACK —
+    with and without an authenticator"""
+    return [V("C13", x["what"], x["at"]) for x in mon_c15(v) if x["what"].startswith("Session Present stored")]
+
+
 def mon_c19(v):
     out = []
     if v.crash:
@@ -362,4 +368,4 @@ def mon_c05(v):
     return out + [dict(x, prop="C05") for x in mon_c11(v) if "never completed" in x["what"] or "still held" in x["what"]]
 
 
-MONITORS = {"C05": mon_c05, "C10": mon_c10, "C11": mon_c11, "C12": mon_c12, "C02": mon_c02, "C19": mon_c19, "C15": mon_c15}
+MONITORS = {"C05": mon_c05, "C10": mon_c10, "C11": mon_c11, "C12": mon_c12, "C02": mon_c02, "C19": mon_c19, "C15": mon_c15, "C13": mon_c13}
